@@ -1526,6 +1526,11 @@ class Engine:
 
     def assign(self, target, v, st, fi) -> list[State]:
         if isinstance(target, ast.Name):
+            lt = getattr(self, "local_types", None)
+            if fi == 0 and lt and target.id in lt and isinstance(v, SRef) and v.ty.kind in ("list", "dict", "set") and lt[target.id].kind == v.ty.kind:
+                # sidecar `local_types`: the element type of an un-annotated local container of the verified function (what an annotation
+                # `xs: list[T] = []` would say); well-typedness of what is stored in it is the usual assumption
+                v = SRef(v.t, lt[target.id])
             self.assign_name(st, fi, target.id, v)
             return [st]
         if isinstance(target, (ast.Tuple, ast.List)):
